@@ -363,6 +363,47 @@ fire('C06', 'override-same-name', ('src/Points.cpp', """    if (idx == SIZE_MAX)
             _points[found] = point;
     }"""))
 
+# ---- round-8 / quiet round-9 rules
+LAMBDA = '''    const auto throwIfWritingFailed = [&f]() {
+        if (f.fail())
+            throw std::ios_base::failure("Could not write the c3d file");
+    };
+'''
+quiet('C15', 'test-in-local-lambda', (W, '    // Write the header\n', LAMBDA + '    // Write the header\n'), (W, '    // Write the parameters\n', '    throwIfWritingFailed();\n    // Write the parameters\n'), (W, FINAL, '    throwIfWritingFailed();'))
+fire('C15', 'lambda-not-called-after-close', (W, '    // Write the header\n', LAMBDA + '    // Write the header\n'), (W, '    f.close();\n' + FINAL, '    throwIfWritingFailed();\n    f.close();'))
+ANALOG_SYNC = '''    // Should always be greater than 0, but we have to take in account Optotrak lazyness
+    if (parameters().group("ANALOG").nbParameters()){
+        if (static_cast<size_t>(parameters().group("ANALOG").parameter("USED").valuesAsInt()[0]) != header().nbAnalogs())
+            _header->nbAnalogs(static_cast<size_t>(parameters().group("ANALOG").parameter("USED").valuesAsInt()[0]));
+    } else
+        _header->nbAnalogs(0);
+'''
+for pid in ('C03', 'C05'):
+    fire(pid, 'channel-count-before-subframes', (W, ANALOG_SYNC, ''), (W, '    // Compare the subframe with data when possible, otherwise go with the parameters\n', ANALOG_SYNC + '    // Compare the subframe with data when possible, otherwise go with the parameters\n'))
+for pid in ('C02', 'C12'):
+    fire(pid, 'payload-rewritten-after-read', ('src/Parameter.cpp', '    else if (_data_type == DATA_TYPE::INT)\n        file.readParam(static_cast<unsigned int>(_data_type), _dimension, _param_data_int);',
+         '    else if (_data_type == DATA_TYPE::INT) {\n        file.readParam(static_cast<unsigned int>(_data_type), _dimension, _param_data_int);\n        for (size_t i = 0; i < _param_data_int.size(); ++i)\n            if (_param_data_int[i] < 0)\n                _param_data_int[i] += 0x10000;\n    }'))
+fire('C02', 'blank-string-dropped', (W, '''        if (dimension[0] != 0) {
+            std::string tp;
+            for (size_t j = 0; j < dimension[0]; ++j)
+                tp += param_data_string_tp[j];
+            ezc3d::removeTrailingSpaces(tp);
+            param_data_string.push_back(tp);
+        }''', '''        std::string tp;
+        for (size_t j = 0; j < dimension[0]; ++j)
+            tp += param_data_string_tp[j];
+        ezc3d::removeTrailingSpaces(tp);
+        if (!tp.empty())
+            param_data_string.push_back(tp);'''))
+for pid in ('C01', 'C03'):
+    fire(pid, 'empty-named-group-skipped', ('src/Parameters.cpp', 'if (!group(i).name().empty())', 'if (!group(i).name().empty() && group(i).nbParameters() != 0)'))
+fire('C17', 'dimension-bytes-through-char-range', ('src/Parameter.cpp', '''        for (size_t i=0; i<nDimensions; ++i)
+            _dimension.push_back (file.readUint(1*ezc3d::DATA_TYPE::BYTE));    // Read the dimension size of the matrix''', '''    {
+        std::vector<char> dimensionSizes(nDimensions);
+        file.read(dimensionSizes.data(), static_cast<std::streamsize>(nDimensions*ezc3d::DATA_TYPE::BYTE));
+        _dimension.assign(dimensionSizes.begin(), dimensionSizes.end());
+    }'''))
+
 def main():
     made = 0
     skipped = []
